@@ -58,3 +58,47 @@ def c06_support(prop, tier, seed):
         out["violations"].append({"obligation": f"{prop}/table:c06_support", "replay": _viol(prop, "c06_support", bad),
                                   "reproduced": True, "text": f"{bad[0]}"})
     return out
+
+
+def c02_charges(prop, tier, seed):
+    """Every standard amino-acid residue, in every chain position and every built-in force field, carries the
+    formal charge of its state (independent table below); cells a force field does not parameterise completely
+    are reported as not covered, not as violations."""
+    t = cache.get("ff_charges")
+    formal = {"ASP": -1, "GLU": -1, "LYS": 1, "ARG": 1}
+    bad, notcov, n = [], [], 0
+    for k, v in sorted(t.items()):
+        parts = k.split("|")
+        ff, res, pos = parts[:3]
+        extra = parts[3] if len(parts) > 3 else ""
+        n += 1
+        if not v.get("ok"):
+            notcov.append({"cell": k, "why": v.get("why")})
+            continue
+        if v["unassigned"]:
+            notcov.append({"cell": k, "why": f"unassigned atoms {v['unassigned'][:5]}"})
+            continue
+        f = formal.get(res, 0)
+        if pos == "nterm":
+            # N-terminal PRO is never neutralised (documented: its N keeps two heavy neighbours and PRO.set_state
+            # ignores the neutral patch): its final state is the charged terminus
+            f += 0 if ("neutraln" in extra and res != "PRO") else 1
+        if pos == "cterm":
+            f += 0 if "neutralc" in extra else -1
+        if abs(v["charge"] - f) > 1e-3:
+            bad.append({"cell": k, "ffname": v["ffname"], "charge": v["charge"], "formal": f, "generator": "ff_charges"})
+        if v.get("all_missing") == 0 and v.get("pqr_total") is not None:
+            if abs(v["pqr_total"] - round(v["total"])) > 2e-3 or abs(v["total"] - round(v["total"])) > 1e-3:
+                bad.append({"cell": k, "why": "total charge is not the integer sum", "total": v["total"],
+                            "pqr_total": v["pqr_total"], "generator": "ff_charges"})
+    out = {"name": "c02_charge_table", "evaluations": n, "obligations": n, "discharged": n - len(bad) - len(notcov),
+           "counts_as_obligations": False, "violations": [], "undecided": [], "errors": [], "exhaustive": True,
+           "not_covered_by_force_field": notcov,
+           "summary": f"{n} (force field x residue x position) cells from the real pipeline, {len(bad)} with a charge "
+                      f"different from the formal charge, {len(notcov)} not covered by the force field / failing runs",
+           "assumptions": ["X: formal-charge table over 3-residue fragments of tests/data/1AFS.pdb run through the real "
+                           "main_driver (--noopt --nodebump); nucleic acids are not in this table"]}
+    if bad:
+        out["violations"].append({"obligation": f"{prop}/table:c02_charges", "replay": _viol(prop, "c02_charges", bad),
+                                  "reproduced": True, "text": f"{bad[0]}"})
+    return out
